@@ -205,7 +205,7 @@ class GuardFlow(F.Flow):
 def nullable_deref_rule(m, rid, funcs):
     r = RuleResult(rid, "a get_*() result that a function tests for None somewhere is never dereferenced there without such a test on the "
                         "same receiver (an unnamed opening statement gives None)")
-    r.floor = 2
+    r.floor = 1
     for f in funcs:
         P = A.parents(f.node)
         believed = set()
@@ -213,6 +213,14 @@ def nullable_deref_rule(m, rid, funcs):
             if isinstance(n, ast.Compare) and len(n.ops) == 1 and isinstance(n.ops[0], (ast.Is, ast.IsNot)) and A.const(n.comparators[0], 1) is None \
                     and isinstance(n.left, ast.Call) and isinstance(n.left.func, ast.Attribute) and n.left.func.attr.startswith("get_"):
                 believed.add(n.left.func.attr)
+        # the same belief stated through a local: `v = x.get_name()` ... `v is None` / `v is not None`
+        getter_of = {n.targets[0].id: n.value.func.attr for n in A.body_nodes(f.node)
+                     if isinstance(n, ast.Assign) and len(n.targets) == 1 and isinstance(n.targets[0], ast.Name) and isinstance(n.value, ast.Call)
+                     and isinstance(n.value.func, ast.Attribute) and n.value.func.attr.startswith("get_")}
+        for n in A.body_nodes(f.node):
+            if isinstance(n, ast.Compare) and len(n.ops) == 1 and isinstance(n.ops[0], (ast.Is, ast.IsNot)) and A.const(n.comparators[0], 1) is None \
+                    and isinstance(n.left, ast.Name) and n.left.id in getter_of:
+                believed.add(getter_of[n.left.id])
         nullable_vars = {}
         for n in A.body_nodes(f.node):
             if isinstance(n, ast.Assign) and len(n.targets) == 1 and isinstance(n.targets[0], ast.Name) and isinstance(n.value, ast.Call) \
